@@ -250,6 +250,10 @@ let mem_cmd (toks : string list) : string option =
         | "V" :: r ->
             let (items, offs) = init_header ks !st in
             outs := (Printf.sprintf "view acc=%s same=1" (acc_string ks items offs)) :: !outs; go r
+        | "F" :: r ->
+            let (items, _) = init_header ks !st in
+            let n = List.fold_left2 (fun acc k it -> acc + (match k with Scalar _ -> 1 | Vector _ -> zi it | MultiR (_, rows) | MultiV (_, rows) -> zi it * zi rows)) 0 ks items in
+            outs := (Printf.sprintf "each n=%d same=1" n) :: !outs; go r
         | x :: _ -> outs := ("?op " ^ x) :: !outs in
       go ops;
       Some (String.concat " || " (List.rev !outs))
